@@ -638,6 +638,9 @@ def run(ctx):
     sub = SubCtx(ctx, 'C08.queue', 'every clock wakes its tasks in queue order: the priority-queue contract of the task queue, as decided for C09')
     c09.rule_inv(sub)
     c09.rule_key(sub)
+    from . import c11
+    sub_c11 = SubCtx(ctx, 'C08.exc', 'a task that raises does not affect the others only if the failed routine stops being the current thread: restoring current_tt on every exit of Routine.next, as decided for C11 (a later relative sched would take the dead routine\'s frozen time as its base and wake tasks early)')
+    c11.rule_restore(sub_c11)
     rule_finite(ctx)
     rule_guard(ctx)
     rule_wait(ctx)
